@@ -80,10 +80,11 @@ class Module:
 
 
 class Project:
-    def __init__(self, root, overlay=None, package='dsw'):
+    def __init__(self, root, overlay=None, package='dsw', inline=True):
         self.root, self.package = root, package
         self.modules = {}
         overlay = overlay or {}
+        self._overlay, self._inline, self._pristine = overlay, inline, None
         pkgdir = os.path.join(root, package)
         names = set()
         if os.path.isdir(pkgdir):
@@ -118,7 +119,7 @@ class Project:
                     for a in st.names:
                         public.add(a.asname or a.name)
         self.inlined_calls = 0
-        if public:
+        if public and inline:
             from .inline import inline_project
             try:
                 self.inlined_calls = inline_project({m.name: m.tree for m in self.modules.values()}, public)
@@ -136,6 +137,14 @@ class Project:
         if init is not None:
             for local, q in init.imports.items():
                 self.exports[local] = q
+
+    def pristine(self):
+        """the same sources without the normalising pre-pass (for rules about the program text as written)"""
+        if not self._inline:
+            return self
+        if self._pristine is None:
+            self._pristine = Project(self.root, self._overlay, self.package, inline=False)
+        return self._pristine
 
     def func(self, qual, required=True):
         f = self.funcs.get(qual)
